@@ -82,7 +82,7 @@ def run(pid, replay=None):
         "samples": samples,
         "evaluations": len(behs) * reps + free_n,
         "distinct_nontrivial": distinct,
-        "rule": "distinct TLC behaviours of Pool.tla (counterexamples of the unrepaired model + -simulate with max 1 and 2, 3 callers, cancellation, "
+        "rule": "distinct TLC behaviours of Pool.tla (schedules that break a property when one of the five repairs is switched off, regenerated from the current model; -simulate with max 1 and 2, 3 callers, cancellation, "
                 "connection death) replayed with gates, each %d times, every trace ending with a drain and a fresh-caller probe; plus seeded free-running traces" % reps,
         "model_states_exhaustive": mc.distinct if mc else 0,
         "exhaustive": False,
